@@ -311,6 +311,8 @@ NEUTRAL = {
     "C05": [
         ("nt-vs1", "crates/lib/mimium-lang/src/runtime/vm.rs", "        state_storage.resize(fnproto.state_skeleton.total_size() as usize);", "        let words = fnproto.state_skeleton.total_size() as usize;\n        state_storage.resize(words);", "vm_storage"),
         ("nt-sy1", "crates/lib/mimium-lang/src/mir.rs", "            Type::Array(_elem_ty) => StateType(1),", "            Type::Array(_) => StateType(1),", "state_type"),
+        ("nt-bs1", "crates/lib/mimium-lang/src/compiler/bytecodegen.rs", "            mir::Instruction::PushStateOffset(v) => {\n                let state_size = StateOffset::try_from(v).expect(\"too much large state offset.\");\n                Some(VmInstruction::PushStatePos(state_size))", "            mir::Instruction::PushStateOffset(v) => {\n                let words = StateOffset::try_from(v).expect(\"too much large state offset.\");\n                Some(VmInstruction::PushStatePos(words))", "backend_state"),
+        ("nt-ws1", "crates/lib/mimium-lang/src/runtime/wasm.rs", "        let delta_u64 = offset.unsigned_abs();\n        let delta = usize::try_from(delta_u64).unwrap_or(usize::MAX);\n        current.pos = current.pos.saturating_sub(delta);", "        let back = offset.unsigned_abs();\n        let delta = usize::try_from(back).unwrap_or(usize::MAX);\n        current.pos = current.pos.saturating_sub(delta);", "wasm_state"),
         ("nt-ms1", MG, "                let (array_v, _array_ty, states) = self.eval_expr(*array);\n                let (index_v, _ty, states2) = self.eval_expr(*index);", "                let (array_v, _array_ty, states) = self.eval_expr(*array);\n                // the index is evaluated after the array\n                let (index_v, _ty, states2) = self.eval_expr(*index);", "mirgen_state"),
     ],
     "C11": [
@@ -318,6 +320,7 @@ NEUTRAL = {
     ],
     "C12": [
         ("nt-rc1", MG, "                        let value = self.push_inst(Instruction::Load(ptr, ty));\n                        self.insert_release_recursively(value, ty);", "                        let loaded = self.push_inst(Instruction::Load(ptr, ty));\n                        self.insert_release_recursively(loaded, ty);", "mirgen_rc"),
+        ("nt-hp2", RT + "vm/heap.rs", "        if obj.refcount == 0 {\n            log::trace!(\"heap_release: freeing {idx:?}\");\n            storage.remove(idx);", "        if 0 == obj.refcount {\n            storage.remove(idx);", "heap"),
         ("nt-hp1", RT + "vm/heap.rs", "pub fn heap_retain(", "/// (retain)\npub fn heap_retain(", "heap"),
     ],
     "C13": [
